@@ -91,7 +91,8 @@ def _ahb_obs(x):
 def h1(params, zero):
     rcv = dict(zip(("1", "2", "3"), PERMS[params["perm"]]))
     hints = {"501": "Hinweis A", "502": "Hinweis B"}
-    expr = ["[1] U ([2] O [3]) U [501] U [502]", "([1] X [2]) O [3] U [502] U [501]", "[501] U [3] U ([502] U [2] X [1])"][params["expr"]]
+    expr = ["[1] U ([2] O [3]) U [501] U [502]", "([1] X [2]) O [3] U [502] U [501]", "[501] U [3] U ([502] U [2] X [1])",
+            "([1] U [2]) O ([1] U [3]) U [501] U [501]"][params["expr"]]  # the last one repeats keys
 
     def factory(sched):
         env = _env(sched, rc=rcv, hints=hints, yields={"*": 0} if zero else None)
@@ -328,8 +329,8 @@ def plan(tier, seed):
         items.append({"h": name, "params": params, "order_bound": order_bound, "early": b["early"]})
 
     for perm in range(6):
-        for e in range(3):
-            add("H1", {"perm": perm, "expr": e})
+        for e in range(4):
+            add("H1", {"perm": perm, "expr": e}, order_bound=None if e < 3 else b["large_order_bound"] + 1)
     for vals in itertools.product((0, 1), repeat=4):
         add("H2", {"vals": list(vals), "expr": sum(vals) % 2})
     for perm in range(6):
